@@ -122,6 +122,27 @@ def stmt_like_reads(model: RepoModel) -> Set[str]:
     return out
 
 
+def _r6b_literal_text_untouched(model: RepoModel, rep):
+    """common_eval hands the text of ONE literal token to the evaluator.  Character-set trimming of that text (strip / rstrip / lstrip
+    with an argument) removes every trailing character of the set, not one suffix: with the C suffix letters lLuUfF it eats the hex
+    digits of `0x1F` (-> 0x1 = 1), with quote characters it eats quotes that belong to the content."""
+    cp = model.module("lang/common_parser.py").classes.get("Parser")
+    ce = cp.methods.get("common_eval") if cp else None
+    if ce is None:
+        raise AnalysisError("common_parser.Parser.common_eval vanished")
+    P = ce.params[1] if len(ce.params) > 1 else None
+    key = "lang/common_parser.py::Parser.common_eval::the literal's text is evaluated as it is"
+    bad = [c for c in walk_no_nested(ce.node) if isinstance(c, ast.Call) and isinstance(c.func, ast.Attribute) and c.func.attr in ("strip", "rstrip", "lstrip", "replace", "translate")
+           and c.args and isinstance(c.func.value, ast.Name) and c.func.value.id == P]
+    if bad:
+        rep.violation("C02.R6", key, "lang/common_parser.py", bad[0].lineno,
+                      f"common_eval evaluates `{norm(bad[0])[:80]}` instead of the literal's text: `{bad[0].func.attr}` with a character set removes EVERY trailing character "
+                      f"of the set -- for the integer/float suffix letters that includes the hex digits f/F, so `0x1F` is evaluated as `0x1` and `0x7fffffff` "
+                      f"as `0x7` in every frontend")
+    else:
+        rep.holds("C02.R6", key, "lang/common_parser.py", ce.node.lineno, f"`{P}` reaches the evaluator untrimmed")
+
+
 def _r6_literal_and_operator_plumbing(model: RepoModel, rep):
     """C02.R6: two places every frontend's operands/operators pass through."""
     from ..cfg import cfg_of
@@ -379,6 +400,7 @@ def run(model: RepoModel, rep, tier: str):
     from .c01 import check_tmp_elimination
     check_tmp_elimination(model, rep, "C02.R5")
     _r6_literal_and_operator_plumbing(model, rep)
+    _r6b_literal_text_untouched(model, rep)
     # ------------------------------------------------------------------ R7 / R8 (cross-cutting loop and operand-order rules)
     from .. import generic2
     seven_rels = [m.rel for lg, m in fes if lg in gir.SEVEN] + ["lang/common_parser.py"]
